@@ -31,6 +31,9 @@ LibTy(t) == Ty(t.b, Range(t.fl))
 (*       MINIMALIF is consensus).  TypeOfDev applies D1 at the d: rule and *)
 (*       lets it propagate, so the comparison stays exact everywhere else. *)
 (***************************************************************************)
+\* clauses that quantify over all asset worlds are skipped for fragments with many keys (the wide
+\* multisigs: 2^17 worlds); those are judged on encoding, size, type, text and validation only
+FewKeys(m) == Cardinality(KeysOf(m)) <= 6
 SameSpend(a1, a2, ctx) ==
   \A w \in WorldsOfCtx(a1, ctx) : Spendable(a1, w, ctx) = Spendable(a2, w, ctx)
 
@@ -106,7 +109,7 @@ JudgeEvent(ev) ==
               /\ (LibTy(ev.dec.ty) = lt \/ Report("C04", "decode_type_differs", ev, ""))
               /\ (ev.dec.ast = ev.ast \/ Report("INFO", "decode_other_ast", ev, "")
                   )
-              /\ (ev.dec.ast = ev.ast \/ ~TypeOf(ev.dec.ast, ctx).ok \/ st.b # "B"
+              /\ (ev.dec.ast = ev.ast \/ ~TypeOf(ev.dec.ast, ctx).ok \/ st.b # "B" \/ ~FewKeys(ev.ast)
                   \/ SameSpend(ev.ast, ev.dec.ast, ctx) \/ Report("C04", "decode_semantics_differ", ev, ""))
               /\ (ev.dec.ast = ev.ast \/ TypeOf(ev.dec.ast, ctx).ok \/ Report("C04", "decode_ill_typed", ev, ""))))
       \* C04, reverse direction: whatever the decoder accepts among the instruction-level mutations
@@ -117,7 +120,7 @@ JudgeEvent(ev) ==
             /\ (a.reenc_same \/ Report("C04", "decoder_accepts_script_it_does_not_reencode", ev, <<a.mut, a.hex>>))
             /\ (~a.known \/ Encode(a.ast, ctx) = a.ops \/ Report("C04", "decoder_accepts_noncanonical_script", ev, <<a.mut, a.hex>>))
       \* C07
-      /\ (st.b # "B" \/ ~ev.lift.ok \/
+      /\ (st.b # "B" \/ ~ev.lift.ok \/ ~FewKeys(ev.ast) \/
           \A w \in WorldsOfCtx(ev.ast, ctx) :
              Eval(ev.lift.pol, w) = Spendable(ev.ast, w, ctx)
              \/ Report("C07", "lift_differs", ev, <<Eval(ev.lift.pol, w), w.sigs, w.pre, w.env.lock, w.env.seq>>))
